@@ -265,7 +265,7 @@ static void Handle(const json& c, vh::Report& r) {
   size_t step = 0;
   for (const auto& op : c["prefix"]) Apply(w, op, wit, step, r, false);
   for (const auto& op : c["hist"]) {
-    ++step; Apply(w, op, wit, step, r, true);
+    ++step; Apply(w, op, wit, step, r, true); r.Count("call." + op["op"].get<std::string>());
     ++r.checks;
     if (const auto inv = Structure(*w.oss); !inv.empty()) { r.Violation("C19", "structure: " + inv, wit, { {"step", step} }); return; }
     if (const auto inv = ParentsKept(w); !inv.empty()) { r.Violation("C19", "structure: " + inv, wit, { {"step", step} }); return; }
